@@ -42,6 +42,7 @@ CLAIM = {"text": "inside the stated bound every defined run of generated Python 
 
 HEAP_START = 0x10000000
 HANG_CPU_S = 0.03   # CPU-time budget of one generated-code run whose reference run ended within <= 200 block steps (microseconds of work)
+HANG_RETRY_CPU_S = 3.0  # second, deciding budget when the first one is exhausted
 BATCH = {"binop": 128, "unop": 128, "const": 128, "cast": 128, "cmp": 64, "mem": 24, "cfg": 16, "l1k2": 96}
 
 
@@ -364,12 +365,21 @@ def run_cases(p, cases):
                 if pure:
                     got_r = pyf(*args)
                 else:
-                    with cpu_limit(HANG_CPU_S):
-                        got_r = pyf(*args)
+                    try:
+                        with cpu_limit(HANG_CPU_S):
+                            got_r = pyf(*args)
+                    except CpuTimeout:
+                        # a collector pause or timer granularity can exhaust the small budget: decide with a budget 100x larger, from the same start state
+                        p.count("runs_slow_retried")
+                        rt.heap[:] = heap0
+                        del rt.stack[:]
+                        del trace[:]
+                        with cpu_limit(HANG_RETRY_CPU_S):
+                            got_r = pyf(*args)
             except CpuTimeout:
                 p.count("runs_hanging")
                 p.violation(lab if case["kind"] == "cfg" else "gen-hangs/%s" % lab, "%s args %s: generated Python still running after %.2f CPU-seconds; the reference "
-                            "returns %s after %d block steps" % (case["feat"], show(args), HANG_CPU_S, show(want_r), it.steps), witness(case, args), order=order)
+                            "returns %s after %d block steps" % (case["feat"], show(args), HANG_RETRY_CPU_S, show(want_r), it.steps), witness(case, args), order=order)
                 continue
             except Exception as ex:  # noqa
                 if isinstance(ex, ZeroDivisionError) and "float" in str(ex) and case["kind"] in ("binop", "l1k2"):
